@@ -422,3 +422,14 @@ Proof.
   - intros pi2. apply result_depends_on_shuffled_list.
     rewrite <- apply_perm_compose by exact Hin. rewrite He. reflexivity.
 Qed.
+
+(* a group without evidence never enters the competition order, hence is not ranked *)
+Lemma ranked_has_infos st seen es pi1 e : In e (ranked st seen es pi1) -> e_infos e <> [].
+Proof.
+  intros H. unfold ranked in H.
+  apply greedy_incl in H. apply (proj1 (isort_In key1_geb _ _)) in H.
+  unfold apply_perm in H. apply in_flat_map in H. destruct H as [i [_ H]].
+  destruct (nth_error (filter has_infos es) i) as [x|] eqn:E; [|destruct H]. destruct H as [<-|[]].
+  apply nth_error_In in E. apply filter_In in E. destruct E as [_ E]. unfold has_infos in E.
+  destruct (e_infos x); [discriminate | discriminate].
+Qed.
